@@ -18,7 +18,7 @@ RULE = ("seeded invocations from every rejection class (no source; a missing sou
 ASSUMPTIONS = ["a --glob pattern that matches nothing is not claimed as a rejection class (the code documents it as a FIXME and the statement speaks of a missing source)"]
 
 CLASSES = ["no-source", "missing-source", "dir-without-r", "multi-to-absent", "multi-to-file", "dir-onto-file-dest", "dir-onto-file-mapped",
-           "same-as-dest", "noclobber-force", "bad-driver", "bad-reflink", "bad-backup", "bad-glob", "bad-blocksize"]
+           "same-as-dest", "noclobber-force", "bad-driver", "bad-reflink", "bad-backup", "bad-glob", "bad-blocksize", "glob-multi-to-nondir"]
 
 
 def gen_cases(tier, seed):
@@ -106,6 +106,12 @@ def gen_cases(tier, seed):
         elif cls == "bad-glob":
             opts += ["--glob"]
             srcs.insert(pos, r.choice(["a[", "v[0-", "***/[x"]))
+        elif cls == "glob-multi-to-nondir":
+            # one pattern that expands to several sources, destination absent or a file
+            spec.append({"p": "vx", "k": "f", "size": 4, "seed": 2, "segs": None})
+            opts += ["--glob"]
+            srcs = [r.choice(["v*", "v?", "./v*"])]
+            dstate = r.choice(["absent", "file"])
         elif cls == "bad-blocksize":
             opts += ["--block-size", r.choice(["12XB", "-5", "abc"])]
         pre = []
